@@ -26,6 +26,8 @@ type EvalCtx struct {
 	override map[ssa.Value]Value
 	at       *ssa.BasicBlock // program point for SSA name resolution (loop head), nil = function boundary
 	inQuant  int
+	declareRegions bool
+	atEnd    bool // resolve SSA names at the end of block `at` (returns) instead of its entry
 	forceNames bool // contract names shadow SSA variables (expanded quantifier variables)
 	depth    int
 }
@@ -153,7 +155,7 @@ func (c *EvalCtx) eval(e *Expr) CV {
 		}
 		var vars []*Term
 		for _, n := range e.Vars {
-			bv := B.BVar(n, SInt)
+			bv := B.BVarAt(n, c.inQuant, SInt)
 			sub.bound[n] = bv
 			vars = append(vars, bv)
 		}
@@ -607,6 +609,19 @@ func (c *EvalCtx) evalCall(e *Expr) CV {
 			mul = new(big.Int).Lsh(mul, 8)
 		}
 		return CV{VT{B.Add(parts...)}, nil}
+	case "region":
+		// region(base, size): as a precondition it declares memory the function may access raw
+		base, size := c.evalInt(e.Args[0]), c.evalInt(e.Args[1])
+		if c.declareRegions {
+			vc.regions = append(vc.regions, Region{Base: base, Size: size, What: "requires region", Writable: true})
+			vc.fact(B.And(B.Le(B.Int(0), base), B.Le(B.Add(base, size), B.Big(maxAddr))))
+			return CV{VT{B.True()}, nil}
+		}
+		var alts []*Term
+		for _, r := range vc.regions {
+			alts = append(alts, B.And(B.Le(r.Base, base), B.Le(B.Add(base, size), B.Add(r.Base, r.Size))))
+		}
+		return CV{VT{B.Or(alts...)}, nil}
 	case "within":
 		a, n, base, m := c.evalInt(e.Args[0]), c.evalInt(e.Args[1]), c.evalInt(e.Args[2]), c.evalInt(e.Args[3])
 		return CV{VT{B.And(B.Le(base, a), B.Le(B.Add(a, n), B.Add(base, m)))}, nil}
@@ -633,6 +648,17 @@ func (c *EvalCtx) evalCall(e *Expr) CV {
 			return c.loadField(p.Addr, p.Key, et)
 		}
 		evalFail("deref of unsupported value")
+	case "ncalls", "callarg":
+		// ghost call log of calls through function-typed struct fields: ncalls("T.f"), callarg("T.f", i)
+		if len(e.Args) < 1 || e.Args[0].Op != "str" {
+			evalFail("%s needs a string literal field name", e.Name)
+		}
+		key := c.f.vc.qualifyFieldKey(c.f, e.Args[0].Name)
+		if e.Name == "ncalls" {
+			return CV{VT{B.Select(vc.heapGet(c.st, "ghost:ncalls:"+key), B.Int(0))}, nil}
+		}
+		i := c.evalInt(e.Args[1])
+		return CV{VT{B.Select(vc.heapGet(c.st, fmt.Sprintf("ghost:arg%s:%s", i.ival.String(), key)), B.Int(0))}, nil}
 	case "pow10":
 		n := c.evalInt(e.Args[0])
 		if n.IsConst() {
@@ -668,6 +694,17 @@ func (c *EvalCtx) evalCall(e *Expr) CV {
 		}
 		for i, p := range m.Params {
 			sub.names[p] = c.eval(e.Args[i])
+		}
+		// inside a spec body only its parameters, bound variables and package-level
+		// names are visible (no capture of SSA variables of the function under proof)
+		sub.at = nil
+		sub.override = nil
+		sub.bound = map[string]*Term{}
+		for k, v := range c.bound {
+			sub.bound[k] = v
+		}
+		for _, p := range m.Params {
+			delete(sub.bound, p) // parameters shadow quantified variables of the caller
 		}
 		sub.depth++
 		return sub.eval(m.Body)
@@ -758,16 +795,22 @@ func (c *EvalCtx) ssaValue(v ssa.Value) Value {
 // dominator tree (go/ssa records these as DebugRef instructions).
 func (c *EvalCtx) resolveSSA(name string) (CV, bool) {
 	b := c.at
-	for _, in := range b.Instrs {
-		p, ok := in.(*ssa.Phi)
-		if !ok {
-			break
-		}
-		if p.Comment == name {
-			return CV{c.ssaValue(p), p.Type()}, true
+	if !c.atEnd {
+		for _, in := range b.Instrs {
+			p, ok := in.(*ssa.Phi)
+			if !ok {
+				break
+			}
+			if p.Comment == name {
+				return CV{c.ssaValue(p), p.Type()}, true
+			}
 		}
 	}
-	for d := b.Idom(); d != nil; d = d.Idom() {
+	start := b.Idom()
+	if c.atEnd {
+		start = b
+	}
+	for d := start; d != nil; d = d.Idom() {
 		for i := len(d.Instrs) - 1; i >= 0; i-- {
 			switch x := d.Instrs[i].(type) {
 			case *ssa.DebugRef:
@@ -935,4 +978,22 @@ func exprMentions(x *Expr, name string) bool {
 		}
 	}
 	return false
+}
+
+// qualifyFieldKey turns "intDecoder.op" into the Burstall key of that field in the function's package.
+func (vc *VC) qualifyFieldKey(f *Frame, name string) string {
+	parts := strings.SplitN(name, ".", 2)
+	if len(parts) == 2 && f.fn.Pkg != nil {
+		if tn, ok := f.fn.Pkg.Members[parts[0]].(*ssa.Type); ok {
+			if s, ok := tn.Type().Underlying().(*types.Struct); ok {
+				for i := 0; i < s.NumFields(); i++ {
+					if s.Field(i).Name() == parts[1] {
+						return fieldKey(tn.Type(), i)
+					}
+				}
+			}
+		}
+	}
+	evalFail("unknown field %q", name)
+	return ""
 }
